@@ -26,8 +26,9 @@ class MolecularHamiltonian(AbstractOperator):
         Initialize the Hamiltonian by its kinetic and interaction term coefficients.
         """
         norbs = len(tkin)
-        tkin = np.asarray(tkin)
-        vint = np.asarray(vint)
+        # private copies: the symmetry checks below must remain valid for the stored coefficients
+        tkin = np.array(tkin)
+        vint = np.array(vint)
         if tkin.shape != 2 * (norbs,):
             raise ValueError(f"tkin must have shape ({norbs}, {norbs}), instead of {tkin.shape}")
         if vint.shape != 4 * (norbs,):
